@@ -269,10 +269,11 @@ def gen_launch_trace(rng):
             ops.append(("LC",))
         elif rng.random() < 0.2:
             ops.append(("R", w.report(rng.choice(hosts))))
+            ops.append(("LC",))                            # the C09 monitor reads "all defined shards fully reporting" from the context
         ops.append(("T",))
         if rng.random() < 0.3:
             ops.append(("Q", [w.random_request()]))
-    ops += [("T",), ("LS",), ("LK", 2), ("LC",), ("H",), ("SNAP",), ("Q", [w.random_request()]), ("R", w.report(hosts[0])), ("T",)]
+    ops += [("T",), ("LS",), ("LK", 2), ("LC",), ("H",), ("SNAP",), ("Q", [w.random_request()]), ("R", w.report(hosts[0])), ("LC",), ("T",)]
     return ops
 
 
